@@ -367,8 +367,8 @@ theorem c10_prog_checks (env : Env) (hwf : WF env = true) (steps : List Step)
     glom.matching): the objects the matching code recognises by *identity* — `_MISSING`, the
     marker "no default given" of Match / And / Or / Switch / Optional, and `RAISE`, Check's —
     come back from `copy.copy`, `copy.deepcopy` and a pickle round trip as the very same object
-    (or cannot be pickled at all); the only markers that do not are `M` and `T`
-    (`identityExempt`: the first is a defect of the pinned glom, the second harmless). -/
+    (or cannot be pickled at all), and so does `M` (since the repair of F43); the only marker that
+    need not is `T` (`identityExempt`: harmless). -/
 theorem c10_copy_facts_wf : markersOK Generated.identityMarkers = true := by decide
 
 /-- **A copy of a spec decides like the spec**: a spec object that went through `copy.copy`,
